@@ -68,7 +68,7 @@ var gsTargets = []gsTarget{
 	{"render", "Spread", "Clamp"},
 	{"generate", "", "Translate"}, {"generate", "", "MulAff3"},
 	{"render", "Renderer", "CSel"}, {"render", "Renderer", "NSel"}, {"render", "Renderer", "SetCSel"}, {"render", "Renderer", "SetNSel"},
-	{"render", "Renderer", "SetLOD"},
+	{"render", "Renderer", "SetLOD"}, {"render", "Renderer", "SetCReg"}, {"render", "Renderer", "SetNReg"},
 	{"render", "Renderer", "absX"}, {"render", "Renderer", "absY"}, {"render", "Renderer", "relX"}, {"render", "Renderer", "relY"},
 	{"render", "Renderer", "unabsX"}, {"render", "Renderer", "unabsY"}, {"render", "Renderer", "absVec2"},
 	{"encode", "Encoder", "quantize"},
@@ -448,6 +448,15 @@ func (c *gsCtx) expr(e ast.Expr) string {
 		gsFail("pointer dereference")
 	case *ast.UnaryExpr:
 		t := info.TypeOf(e)
+		if v.Op == token.AND {
+			// the address of a receiver field handed to a callee that only reads through it
+			if sel, ok := v.X.(*ast.SelectorExpr); ok {
+				if id, ok := sel.X.(*ast.Ident); ok && c.fieldRecv != nil && c.objOf(id) == c.fieldRecv {
+					return c.expr(v.X)
+				}
+			}
+			gsFail("address-of")
+		}
 		x := c.expr(v.X)
 		switch v.Op {
 		case token.NOT:
@@ -1153,6 +1162,19 @@ func (c *gsCtx) assign(v *ast.AssignStmt) string {
 		gsFail("assignment arity")
 	}
 	if len(v.Lhs) == 1 {
+		if ix, ok := v.Lhs[0].(*ast.IndexExpr); ok {
+			// z.f[i] = e  on an array field of the receiver
+			if sel, ok := ix.X.(*ast.SelectorExpr); ok {
+				if id, ok := sel.X.(*ast.Ident); ok && c.fieldRecv != nil && c.objOf(id) == c.fieldRecv {
+					rhs := c.expr(v.Rhs[0])
+					idx := c.expr(ix.Index)
+					cur := c.expr(sel)
+					name := c.lhs(sel)
+					return fmt.Sprintf("let %s := (go_list_set %s %s %s) in\n", name, cur, idx, rhs)
+				}
+			}
+			gsFail("element assignment")
+		}
 		rhs := c.expr(v.Rhs[0])
 		return fmt.Sprintf("let %s := %s in\n", c.lhs(v.Lhs[0]), rhs)
 	}
